@@ -1,6 +1,7 @@
 """C15 -- route-path filtering follows the configured device personality (E-input, full product).
 
-Personalities x request route paths x services, each on a fresh real simulator (whole frames through logix.process).
+Personalities x request route paths x services, each on a fresh real simulator (whole frames through logix.process), each
+request issued twice (a verdict must not depend on the request before it).
 Tag accesses are counted by an instrumented Attribute subclass handed in through the supported `attribute_class`
 extension point (main()) / the tag's Attribute object (direct configuration).
 Second part: textual route paths against an independent reference parser.
@@ -18,11 +19,12 @@ RULE = ("full product personality x request route path x service on a freshly co
         "null/0/false over port and link alphabets. non-trivial = distinct (personality, route path, service) with a route path "
         "present, and distinct route-path texts with >= 1 segment")
 BOUNDS = {
-    "quick": "10 personalities x 18 request route paths x 5 services; texts over ports {1,2,14,15,16,255,65535} x links "
+    "quick": "13 personalities (3 of them with a non-applicable route table) x 18 request route paths x 5 services, each request twice; texts over ports {1,2,14,15,16,255,65535} x links "
              "{0,1,255,'1.2.3.4','10.0.0.10'} in 4 notations, chains of 1..2 segments",
     "thorough": "same product (it is already complete for the alphabet) + chains of 3 segments and connection paths with a trailing CIP path",
 }
-ASSUMPTIONS = ["no remote routes ([UCMM] Route table) are configured: a request route path is only ever matched against the personality",
+ASSUMPTIONS = ["no request of the alphabet leads with a hop of a configured [UCMM] Route table (forwarding to a remote device is out of scope): "
+               "a request route path is only ever matched against the personality, with and without a (non-applicable) route table",
                "main() restricts --route-path to a single port/link segment; multi-segment personalities are built as UCMM subclasses"]
 
 PL = lambda p, l: {"port": p, "link": l}
@@ -30,7 +32,11 @@ PERSONALITIES = [
     ("none", None), ("simple", False),
     ("1/0", [PL(1, 0)]), ("1/1", [PL(1, 1)]), ("2/1.2.3.4", [PL(2, "1.2.3.4")]), ("15/0", [PL(15, 0)]), ("16/3", [PL(16, 3)]),
     ("1/0/2/1.2.3.4", [PL(1, 0), PL(2, "1.2.3.4")]), ("16/3/1/0", [PL(16, 3), PL(1, 0)]), ("empty-list", []),
+    # the same personalities on a UCMM that also has a routing table -- whose only entry (9/9) no request of the alphabet leads with:
+    # a route table that does not apply must not switch the filtering off
+    ("1/0+table", [PL(1, 0)]), ("simple+table", False), ("16/3/1/0+table", [PL(16, 3), PL(1, 0)]),
 ]
+ROUTE_TABLE = {"9/9": "127.0.0.1:1"}
 REQUEST_PATHS = [
     None, [], [PL(1, 0)], [PL(1, 1)], [PL(2, 0)], [PL(2, "1.2.3.4")], [PL(2, "1.2.3.5")], [PL(15, 0)], [PL(16, 3)],
     [PL(1, 0), PL(2, "1.2.3.4")], [PL(1, 0), PL(1, 0)], [PL(16, 3), PL(1, 0)], [PL(16, 3), PL(1, 0), PL(1, 0)],
@@ -82,6 +88,7 @@ def build(pname, personality, how):
     else:
         class U(M.ucmm.UCMM):
             route_path = personality
+            route = dict(ROUTE_TABLE) if pname.endswith("+table") else {}
         S = sim.Sim(CFG, ucmm_class=U, attribute_class=Counting)
     for a in S.attrs.values():
         assert isinstance(a, Counting), "harness: attribute_class not honoured"
@@ -103,9 +110,23 @@ def request_bytes(service):
 
 
 def check_case(pname, personality, how, rp, service):
-    """-> [(kind,msg)], accepted?"""
-    bad = []
+    """-> [(kind,msg)], accepted?   The same request is issued twice (each on a session of its own) on one simulator: the verdict
+    on a route path must not depend on the route path of the request before it."""
     S, Counting = build(pname, personality, how)
+    bad, accepted = [], None
+    for attempt in (1, 2):
+        b, acc_now = check_once(S, Counting, pname, personality, how, rp, service, attempt)
+        bad += b
+        if accepted is None:
+            accepted = acc_now
+        elif acc_now != accepted:
+            bad.append(("verdict-depends-on-history", "personality %s (%s) route path %r service %s: %s the first time, %s when repeated"
+                        % (pname, how, rp, service, "accepted" if accepted else "refused", "accepted" if acc_now else "refused")))
+    return bad, accepted
+
+
+def check_once(S, Counting, pname, personality, how, rp, service, attempt):
+    bad = []
     session = S.register()
     before = S.store()
     Counting.reads = Counting.writes = 0
@@ -127,15 +148,15 @@ def check_case(pname, personality, how, rp, service):
         if f["status"] == 0 and f["cip"] is not None:
             cip = f["cip"]
             accepted = cip.get("status") == 0
-    desc = "personality %s (%s) route path %r service %s" % (pname, how, rp, service)
+    desc = "personality %s (%s) route path %r service %s (attempt %d)" % (pname, how, rp, service, attempt)
     if want:
         if not accepted:
             bad.append(("acceptable-request-refused", "%s: must be accepted, got %s" % (desc, exc or (rpy.hex() if rpy else None))))
         else:
             after = dict(S.store())
-            if service == "read" and cip.get("values") != [0, 0]:
+            if service == "read" and cip.get("values") != list(dict(before)["a"]):
                 bad.append(("wrong-data", "%s: read returned %r" % (desc, cip.get("values"))))
-            if service == "write" and after["a"] != (0, 7):
+            if service == "write" and after["a"] != (dict(before)["a"][0], 7):
                 bad.append(("wrong-data", "%s: store after write %r" % (desc, after)))
             if service == "bundle" and (after["a"] != (3, 4) or len(cip.get("members", [])) != 2):
                 bad.append(("wrong-data", "%s: bundle result %r store %r" % (desc, cip, after)))
@@ -196,6 +217,22 @@ def check_text(text, want):
         norm = [dict(x) if isinstance(x, dict) else x for x in got]
     if norm != want or (want in (None, 0, False) and (norm is not want and not (norm == want and type(norm) is type(want)))):
         return [("route-text-wrong-segments", "parse_route_path(%r) -> %r, the text spells %r" % (text, got, want))]
+    if isinstance(want, list) and want and text.lstrip().startswith("["):
+        # the already-decoded form (a list, as client.parse_operations / proxy hand it in for every operation): parsing it must
+        # give the same segments every time and leave the caller's list alone
+        arg = json.loads(text)
+        keep = json.loads(text)
+        for attempt in (1, 2):
+            try:
+                got = M.device.parse_route_path(arg)
+            except Exception as exc:
+                return [("route-list-rejected", "parse_route_path(%r) (attempt %d) raised %s: %s" % (keep, attempt, type(exc).__name__, exc))]
+            norm = [dict(x) if isinstance(x, dict) else x for x in got] if isinstance(got, list) else got
+            if norm != want:
+                return [("route-list-wrong-segments", "parse_route_path(%r) (attempt %d on the same list object) -> %r, expected %r"
+                         % (keep, attempt, got, want))]
+            if arg != keep:
+                return [("route-list-argument-modified", "parse_route_path modified its argument: %r -> %r" % (keep, arg))]
     return []
 
 
@@ -230,7 +267,7 @@ def run(ctx):
     items = []
     for pname, personality in PERSONALITIES:
         items.append(("cases", pname, "class"))
-        if personality is None or personality is False or (personality and len(personality) == 1):
+        if "+table" not in pname and (personality is None or personality is False or (personality and len(personality) == 1)):
             items.append(("cases", pname, "main"))
     for k in range(8):
         items.append(("texts", k, 8))
